@@ -178,7 +178,9 @@ impl LanguageServer for Backend {
         let uri = params.text_document.uri.clone();
         info!("did_change: {:?}", uri);
         if let Some(file_path) = self.uri_to_path(&uri) {
-            if let Some(change) = params.content_changes.first() {
+            // Full-document sync: the events of one notification apply in order, so the
+            // document's content is the text of the last one
+            if let Some(change) = params.content_changes.last() {
                 info!("Re-analyzing file: {:?}", file_path);
                 self.fixture_db
                     .analyze_file(file_path.clone(), &change.text);
